@@ -2,11 +2,12 @@
    correspondence.  ExtrOcamlBasic only (bool, option, list, prod, unit, sumbool -> OCaml's);
    nat, positive, Z stay the extracted inductive types; no Extract Constant. *)
 From Coq Require Import ExtrOcamlBasic.
-From OVM Require Import Kernel.Ops.
+From OVM Require Import Kernel.Ops Kernel.InvB.
 Extraction Language OCaml.
 Set Extraction Optimize.
 Extraction "ovm_model.ml"
   empty_mesh step valid_op exec props count n_logical needs_gc
   live_v live_e live_f live_c
   he_from he_to halfface opp
-  adjacent_halfface_in_cell.
+  adjacent_halfface_in_cell
+  inv_report valid_b.
